@@ -1,5 +1,10 @@
 import FcpptModel.Prelude.Proto
 import FcpptModel.Model.C01
+import FcpptModel.Model.C01.Stream
+import FcpptModel.Model.C01.Path
+import FcpptModel.Model.C01.Env
+import FcpptModel.Model.C01.Vector
+import FcpptModel.Model.C15.Text
 import FcpptModel.Drv.C06
 /-!
 Driver for C01: the container / string / argument / file helpers of `Model/C01.lean`; scalar
@@ -14,18 +19,208 @@ def showOptInt : M (Option Int) → String
   | .ok none => "none"
   | .error e => e.name
 
-def payload (t : String) : Option Str := if t.startsWith "s:" then some (t.drop 2).toString.toList else none
+def hexVal (c : Char) : Option Nat :=
+  if '0' ≤ c ∧ c ≤ '9' then some (c.toNat - 48) else if 'a' ≤ c ∧ c ≤ 'f' then some (c.toNat - 87) else none
 
-def splitList (s : String) : List String := if s = "_" then [] else s.splitOn ","
+def hexBytes : List Char → Option (List Nat)
+  | [] => some []
+  | a :: b :: r => do let x ← hexVal a; let y ← hexVal b; let rest ← hexBytes r; pure ((x * 16 + y) :: rest)
+  | _ => none
+
+/-- `s:<chars>` or `x:<hex bytes>` -/
+def payload (t : String) : Option Str :=
+  if t.startsWith "s:" then some (t.drop 2).toString.toList
+  else if t.startsWith "x:" then (hexBytes (t.drop 2).toString.toList).map (·.map Char.ofNat)
+  else none
+
+def hexOut (bs : List Nat) : String :=
+  "x:" ++ String.ofList (bs.flatMap fun b => [Proto.hexDigit (b / 16), Proto.hexDigit (b % 16)])
+
+def str (cs : List Nat) : String := String.ofList (cs.map Char.ofNat)
+
+/-- the stream the harness builds for a kind -/
+def mkIn (kind : String) (content : List Nat) : Option (IStream × Bool) :=
+  match kind with
+  | "fresh" | "chunk1" | "chunk2" | "file" => some ({ buf := content }, false)
+  | "eofbit" => some ({ buf := content, eof := true }, false)
+  | "failbit" => some ({ buf := content, fail := true }, false)
+  | "badbit" => some ({ buf := content, bad := true }, false)
+  | "throwend" | "throwend1" => some ({ buf := content, throwsAtEnd := true }, false)
+  | "nullbuf" => if content.isEmpty then some ({ buf := [], bad := true }, true) else none
+  | "dir" => if content.isEmpty then some ({ buf := [], throwsAtEnd := true }, false) else none     -- underflow: EISDIR
+  | _ => none
+
+def mkOut (kind : String) : Option OStream :=
+  let pre : List Nat := [97, 98]
+  match kind with
+  | "fresh" => some { content := pre }
+  | "eofbit" => some { content := pre, eof := true }
+  | "failbit" => some { content := pre, fail := true }
+  | "badbit" => some { content := pre, bad := true }
+  | "nullbuf" => some { bad := true }
+  | "file" => some {}
+  | k =>
+    if k.startsWith "throwroom" then (k.drop 9).toString.toNat?.map fun n => { room := some n, throwsWhenFull := true }
+    else if k.startsWith "room" then (k.drop 4).toString.toNat?.map fun n => { room := some n }
+    else none
+
+/-- `s:<text>` when printable non-blank ASCII, `x:<hex>` otherwise -/
+def outStr (cs : List Nat) : String := if cs.all (fun c => 0x21 ≤ c ∧ c ≤ 0x7e) then "s:" ++ str cs else hexOut cs
+
+def showOptStr : Option (List Nat) → String
+  | some r => "some " ++ outStr r
+  | none => "none"
+
+def showOptVec : M (Option (List Int)) → String
+  | .ok (some v) => "some " ++ (if v.isEmpty then "-" else intList v)
+  | .ok none => "none"
+  | .error e => e.name
+
+def showOptCode : Option Nat → String
+  | some c => s!"some {c}"
+  | none => "none"
+
+/-- is_open answers of the operating system for the scratch paths (read / write) -/
+def openAnswer (mode kind : String) : Option Bool :=
+  if mode = "r" then
+    if kind ∈ ["file0", "file5", "dir", "dir2", "sub", "trailing", "symfile", "symsym", "symdir", "dot", "weirdname", "relfile", "reldot",
+               "reldotdot", "reldir"] then some true
+    else if kind ∈ ["filetrailing", "missing", "dangling", "selfloop", "loopa", "loopb", "longname", "underfile", "underloop",
+                    "longpath", "missingparent", "emptypath", "relmissing", "relunder"] then some false
+    else none
+  else if mode = "w" then
+    if kind = "new" then some true
+    else if kind ∈ ["dir", "symdir", "underfile", "missingparent", "longname", "selfloop", "emptypath", "trailing", "filetrailing",
+                    "longpath", "underloop"] then some false
+    else none
+  else none
+
+/-- 0 = the standard function cleared the error code -/
+def mkdirAnswer (recursive : Bool) (kind : String) : Option Nat :=
+  if kind ∈ ["new", "dir", "dir2", "sub", "trailing", "symdir", "dot", "reldir"] then some 0
+  else if kind = "newnested" then some (if recursive then 0 else 2)
+  else if kind ∈ ["file0", "file5", "filetrailing", "dangling", "symfile", "symsym", "selfloop", "loopa", "loopb", "longname",
+                  "underfile", "underloop", "longpath", "emptypath", "fifo", "weirdname", "relfile", "reldot", "reldotdot", "relunder"] then some 1
+  else none
+
+/-- error code and number of entries of the (recursive) directory range -/
+def rangeAnswer (recursive : Bool) (kind : String) : Option (Nat × Nat) :=
+  match kind with
+  | "dir" | "symdir" => some (0, 0)
+  | "dir2" | "trailing" | "reldir" => some (0, if recursive then 5 else 4)
+  | "sub" => some (0, 1)
+  | _ =>
+    if kind ∈ ["file0", "file5", "filetrailing", "missing", "dangling", "symfile", "symsym", "selfloop", "loopa", "loopb",
+               "longname", "underfile", "underloop", "longpath", "missingparent", "emptypath", "fifo", "weirdname", "relfile", "reldot",
+               "reldotdot", "relmissing", "relunder"] then some (1, 0)
+    else none
+
+/-- the environment the harness sets up -/
+def harnessEnv : List (Str × Str) :=
+  [("VERIF_C01_SET".toList, "value".toList), ("VERIF_C01_EMPTY".toList, []), ("VERIF_C01_EQ".toList, "a=b".toList)]
+
+/-- what `abi::__cxa_demangle` says about the fixed names of the generator -/
+def demangleAnswer : String → Option String
+  | "i" => some "demangled s:int"
+  | "x" => some "demangled s:long long"
+  | "" => some "empty"
+  | "_Z" | "_ZN" | "_Z1" | "St6vectorIiSaIiE" | "N3c012d3" | "3foo3bar" | "_Z1fv_" | "abc" | "-" | "__" | "9999999999a" | "N" | "S" | "I" | "T_" => some "same"
+  | "_Z1fv" => some "demangled s:f()"
+  | "N3c012d3E" => some "demangled s:c01::d3"
+  | "St6vectorIiSaIiEE" => some "demangled s:std::vector<int, std::allocator<int> >"
+  | "3foo" => some "demangled s:foo"
+  | "PKc" => some "demangled s:char const*"
+  | _ => none
+
+def fclassOf : String → Option FClass
+  | "0" | "-0" => some .zero
+  | "1" | "-1" | "denorm" | "-denorm" | "max" | "inf" | "-inf" => some .nonzero
+  | "nan" => some .nan
+  | _ => none
+
+def clsOf : String → Option Cls
+  | "base" => some .base | "d1" => some .d1 | "d2" => some .d2 | "d3" => some .d3 | "m" => some .m | "iface" => some .iface
+  | _ => none
+
+def extractDest : String → Option Fcppt.C15.Dest
+  | "int" => some (.num ⟨4, true⟩) | "uint" => some (.num ⟨4, false⟩) | "short" => some (.num ⟨2, true⟩)
+  | "ulong" => some (.num ⟨8, false⟩) | "long" => some (.num ⟨8, true⟩)
+  | "char" | "schar" => some (.char true) | "uchar" => some (.char false)
+  | _ => none
+
+/-- wait status of the commands of the `system` operation -/
+def waitStatus : String → Option Nat
+  | "exit0" | "true" | "empty" | "exit256" => some 0
+  | "exit3" => some (3 * 256)
+  | "exit255" => some (255 * 256)
+  | "notfound" => some (127 * 256)
+  | "kill" => some 9
+  | "term" => some 15
+  | "segv" => some 11            -- (the core flag 0x80 may be set as well; it does not change WIFEXITED)
+  | _ => none
+
+/-- MEASURED (libstdc++ 12 `num_get` for floating point, classic locale): what `extract_from_string<float / double>` answers on the
+fixed texts of the generator (hex of the text ↦ result for float, for double).  An oracle table, not a model. -/
+def floatAnswer : String → Option (String × String)
+  | "31" => some ("some finite", "some finite")
+  | "312e35" => some ("some finite", "some finite")
+  | "2d312e35" => some ("some finite", "some finite")
+  | "616263" => some ("none", "none")
+  | "" => some ("none", "none")
+  | "3165343030" => some ("none", "none")
+  | "31652d343030" => some ("some zero", "some zero")
+  | "31653338" => some ("some finite", "some finite")
+  | "31653339" => some ("none", "some finite")
+  | "31652d3436" => some ("some zero", "some finite")
+  | "6e616e" => some ("none", "none")
+  | "696e66" => some ("none", "none")
+  | "2d696e66" => some ("none", "none")
+  | "696e66696e697479" => some ("none", "none")
+  | "3078317033" => some ("none", "none")
+  | "312c35" => some ("none", "none")
+  | "313b35" => some ("none", "none")
+  | "312e3520" => some ("none", "none")
+  | "20312e35" => some ("some finite", "some finite")
+  | "3165" => some ("none", "none")
+  | "31652b" => some ("none", "none")
+  | "2b2e35" => some ("some finite", "some finite")
+  | "2e" => some ("none", "none")
+  | "2e35" => some ("some finite", "some finite")
+  | "352e" => some ("some finite", "some finite")
+  | "312e352e32" => some ("none", "none")
+  | "2d30" => some ("some zero", "some zero")
+  | "3165333038" => some ("none", "some finite")
+  | "3165333039" => some ("none", "none")
+  | "2d3165333039" => some ("none", "none")
+  | "31652d333233" => some ("some zero", "some finite")
+  | "31652d333234" => some ("some zero", "some zero")
+  | "313233343536373839303132333435363738393031323334353637383930" => some ("some finite", "some finite")
+  | "302e316531" => some ("some finite", "some finite")
+  | "314533" => some ("some finite", "some finite")
+  | "316433" => some ("none", "none")
+  | "3166" => some ("none", "none")
+  | _ => none
+
+/-- `extract_from_string<std::string>`: `>> word`, then the stream must be at its end -/
+def extractString (src : List Nat) : Option (List Nat) :=
+  let (s, w) := Fcppt.C15.getWord (Fcppt.C15.IStream.ofString src)
+  let (_, c) := Fcppt.C15.peek s
+  if s.fail then none else if c.isNone then w else none
+
+def splitList (s : String) : List String := if s = "_" then [] else if s = "__" then [""] else s.splitOn ","
 
 def colorNames : List String := ["foo", "bar", "baz", "fo", "foobar"]
 
 /-- what the operating system answers for the scratch files the harness creates -/
 def osAnswer : String → Option (Option Nat)
   | "file0" => some (some 0) | "file5" => some (some 5) | "file4096" => some (some 4096)
+  | "sparse5g" => some (some 5368709120)
+  | "weirdname" => some (some 7)
+  | "relfile" | "reldot" | "reldotdot" => some (some 5)
+  | "reldir" | "relmissing" | "relunder" => some none
   | "symfile" => some (some 5)
   | "symsym" => some (some 5)
-  | "dir" | "missing" | "dangling" | "dot" | "emptypath" => some none
+  | "dir" | "missing" | "dangling" | "dot" | "emptypath" | "dir2" | "sub" | "trailing" | "filetrailing" | "missingparent" => some none
   -- stat fails with ELOOP / ENAMETOOLONG / ENOTDIR, or the file exists but is not a regular file: no size either
   | "selfloop" | "loopa" | "loopb" | "symdir" | "fifo" | "longname" | "underfile" | "underloop" | "longpath" => some none
   | _ => none
@@ -79,10 +274,11 @@ def handle (toks : List String) : String :=
           | .error e => e.name)
       else "bad-op"
     | _, _ => "bad-op"
-  | ["rtindex", m, i] =>
+  | ["rtindex", ty, m, i] =>
     match m.toNat?, i.toNat? with
     | some m, some i =>
-      if m ∈ [0, 1, 2, 3, 5] then
+      let lim := if ty = "u8" then 256 else if ty = "u32" then 4294967296 else if ty = "u64" then 18446744073709551616 else 0
+      if m ∈ [0, 1, 2, 3, 5] ∧ i < lim then
         (match runtimeIndex m i (fun k => s!"f {k}") "fail" with | .ok s => s | .error e => e.name)
       else "bad-op"
     | _, _ => "bad-op"
@@ -95,7 +291,7 @@ def handle (toks : List String) : String :=
     | some cs =>
       (match isFlag cs with
         | .ok none => "none"
-        | .ok (some (sh, name)) => (if sh then "short" else "long") ++ " s:" ++ String.ofList name
+        | .ok (some (sh, name)) => (if sh then "short" else "long") ++ " " ++ outStr (name.map Char.toNat)
         | .error e => e.name)
     | none => "bad-op"
   | ["nextarg", args, names] =>
@@ -106,25 +302,256 @@ def handle (toks : List String) : String :=
         | .ok none => "none"
         | .error e => e.name)
     | none => "bad-op"
-  | ["readchars", s, count] =>
+  | ["vdiv", ty, v, d] =>
+    match parseIntList v, d.toInt? with
+    | some v, some d =>
+      if ty = "i32" then showOptVec (vdiv_i32 v d) else if ty = "u32" then showOptVec (vdiv_u32 v d) else "bad-op"
+    | _, _ => "bad-op"
+  | ["vdivv", ty, l, r] =>
+    match parseIntList l, parseIntList r with
+    | some l, some r =>
+      if l.length ≠ r.length then "bad-op"
+      else if ty = "i32" then showOptVec (vdivv_i32 l r) else if ty = "u32" then showOptVec (vdivv_u32 l r) else "bad-op"
+    | _, _ => "bad-op"
+  | ["vmod", ty, v, d] =>
+    match parseIntList v, d.toInt? with
+    | some v, some d => if ty = "u32" then showOptVec (vmod_u32 v d) else "bad-op"
+    | _, _ => "bad-op"
+  | ["vmodv", ty, l, r] =>
+    match parseIntList l, parseIntList r with
+    | some l, some r => if l.length ≠ r.length then "bad-op" else if ty = "u32" then showOptVec (vmodv_u32 l r) else "bad-op"
+    | _, _ => "bad-op"
+  | ["vceildiv", ty, v, d] =>
+    match parseIntList v, d.toInt? with
+    | some v, some d => if ty = "i32" then showOptVec (vceildiv_i32 v d) else "bad-op"
+    | _, _ => "bad-op"
+  | ["readchars", kind, s, count] =>
     match payload s, count.toNat? with
     | some cs, some count =>
-      (match readChars (cs.map Char.toNat) count with
-        | some r => "some s:" ++ String.ofList (r.map Char.ofNat)
-        | none => "none")
+      (match mkIn kind (cs.map Char.toNat) with
+        | some (st, _) =>
+          (match readChars st count with
+            | .ok (st', r) => showOptStr r ++ " " ++ st'.bits
+            | .error e => e.name)
+        | none => "bad-op")
     | _, _ => "bad-op"
-  | ["streamtostring", s] =>
+  | ["readchars2", kind, s, c1, c2] =>
+    match payload s, c1.toNat?, c2.toNat? with
+    | some cs, some c1, some c2 =>
+      (match mkIn kind (cs.map Char.toNat) with
+        | some (st, _) =>
+          (match readChars st c1 with
+            | .ok (st1, r1) =>
+              (match readChars st1 c2 with
+                | .ok (st2, r2) => showOptStr r1 ++ " " ++ showOptStr r2 ++ " " ++ st2.bits
+                | .error e => e.name)
+            | .error e => e.name)
+        | none => "bad-op")
+    | _, _, _ => "bad-op"
+  | ["sts", kind, s] =>
     match payload s with
-    | some cs => "some s:" ++ String.ofList cs
+    | some cs =>
+      (match mkIn kind (cs.map Char.toNat) with
+        | some (st, nullbuf) => showOptStr (streamToString nullbuf st)
+        | none => "bad-op")
     | none => "bad-op"
+  | ["ioget", kind, s] =>
+    match payload s with
+    | some cs =>
+      (match mkIn kind (cs.map Char.toNat) with
+        | some (st, _) =>
+          let (st1, r1) := ioGet st
+          let (st2, r2) := ioGet st1
+          showOptCode r1 ++ " " ++ showOptCode r2 ++ " " ++ st2.bits
+        | none => "bad-op")
+    | none => "bad-op"
+  | ["iopeek", kind, s] =>
+    match payload s with
+    | some cs =>
+      (match mkIn kind (cs.map Char.toNat) with
+        | some (st, _) =>
+          let (st1, r1) := ioPeek st
+          let (st2, r2) := ioPeek st1
+          showOptCode r1 ++ " " ++ showOptCode r2 ++ " " ++ st2.bits
+        | none => "bad-op")
+    | none => "bad-op"
+  | ["ioread", ty, endian, kind, s] =>
+    let tyInfo : Option (Nat × Bool) :=
+      match ty with
+      | "u8" => some (1, false) | "u16" => some (2, false) | "u32" => some (4, false) | "i32" => some (4, true) | "u64" => some (8, false)
+      | _ => none
+    match tyInfo, payload s with
+    | some (size, signed), some cs =>
+      if endian = "big" ∨ endian = "little" then
+        (match mkIn kind (cs.map Char.toNat) with
+          | some (st, _) =>
+            let (st', r) := ioRead size signed (endian = "big") st
+            (match r with | some v => s!"some {v}" | none => "none") ++ " " ++ st'.bits
+          | none => "bad-op")
+      else "bad-op"
+    | _, _ => "bad-op"
+  | ["ioextract", ty, kind, s] =>
+    match extractDest ty, payload s with
+    | some d, some cs =>
+      let codes := cs.map Char.toNat
+      -- the stream-state model of C15 has eofbit and failbit; badbit / null streambuf / throwing streambuf: the sentry fails alike
+      let st : Option Fcppt.C15.IStream :=
+        match kind with
+        | "fresh" | "chunk1" | "chunk2" | "file" => some { buf := codes }
+        | "eofbit" => some { buf := codes, eof := true }
+        | "failbit" | "badbit" => some { buf := codes, fail := true }
+        | _ => none
+      (match st with
+        | some st => (match (Fcppt.C15.extract d st).2 with | some v => s!"some {v}" | none => "none")
+        | none => "bad-op")
+    | _, _ => "bad-op"
+  | ["writechars", "devfull", s] =>
+    -- /dev/full through an ofstream: libstdc++'s filebuf hands 1024 characters or more straight to the device (fails), fewer stay in its buffer
+    match payload s with
+    | some cs =>
+      let o : OStream := if cs.length < 1024 then {} else { room := some 0 }
+      let (o', r) := writeChars o (cs.map Char.toNat)
+      b01 r ++ " s: " ++ o'.bits
+    | none => "bad-op"
+  | ["writechars", kind, s] =>
+    match mkOut kind, payload s with
+    | some o, some cs =>
+      let (o', r) := writeChars o (cs.map Char.toNat)
+      b01 r ++ " s:" ++ str o'.content ++ " " ++ o'.bits
+    | _, _ => "bad-op"
   | ["filesize", kind] =>
     match osAnswer kind with
     | some os => (match fileSize os with | some n => s!"some {n}" | none => "none")
     | none => "bad-op"
-  | ["rmext", s] => if (payload s).isSome then "ok" else "bad-op"
-  | ["extract", ty, s] =>
-    if ty ∈ ["int", "uint", "short", "ulong", "string"] ∧ (payload s).isSome then "ok" else "bad-op"
-  | ["dyncast", k] => if k = "d1" then "some" else if k = "d2" ∨ k = "base" then "none" else "bad-op"
+  | ["fopen", mode, kind] =>
+    let exn := mode = "rx" ∨ mode = "wx"
+    let m := if mode = "r" ∨ mode = "rx" then "r" else if mode = "w" ∨ mode = "wx" then "w" else ""
+    match openAnswer m kind with
+    | some isOpen =>
+      if exn then (match fsOpenExn isOpen with | .ok _ => "some" | .error e => e.name)
+      else (match fsOpen isOpen with | some _ => "some" | none => "none")
+    | none => "bad-op"
+  | ["mkdir", kind] =>
+    match mkdirAnswer false kind with
+    | some ec =>
+      let r := createDirectory ec
+      (if r.isSome then "error" else "none") ++ (if kind = "new" ∨ kind = "newnested" then (if ec = 0 then " made" else " not-made") else "")
+    | none => "bad-op"
+  | ["mkdirs", kind] =>
+    match mkdirAnswer true kind with
+    | some ec =>
+      let r := createDirectory ec
+      (if r.isSome then "error" else "none") ++ (if kind = "new" ∨ kind = "newnested" then (if ec = 0 then " made" else " not-made") else "")
+    | none => "bad-op"
+  | [op, opt, kind] =>
+    if op = "dirrange" ∨ op = "rdirrange" then
+      if opt ∈ ["none", "skip", "follow"] then
+        (match rangeAnswer (op = "rdirrange") kind with
+          | some (ec, n) => (match makeRange ec n with | .inl _ => "failure" | .inr n => s!"success {n}")
+          | none => "bad-op")
+      else "bad-op"
+    else if op = "path" then
+      (match payload kind with
+        | some p =>
+          (match opt with
+            | "rmext" => "s:" ++ String.ofList (Path.removeExtension p)
+            | "ext" => "s:" ++ String.ofList (Path.extension p)
+            | "extnodot" => (match Path.extensionWithoutDot p with | .ok r => "s:" ++ String.ofList r | .error e => e.name)
+            | "stem" => "s:" ++ String.ofList (Path.stem p)
+            | "normalize" => "s:" ++ String.ofList (Path.normalize p)
+            | "nsub" => toString (Path.numSubpaths p)
+            | "tostring" => "s:" ++ String.ofList (Path.pathToString p)
+            | _ => "bad-op")
+        | none => "bad-op")
+    else if op = "replext" then
+      (match payload opt, payload kind with
+        | some p, some e => "s:" ++ String.ofList (Path.replaceExtension p e)
+        | _, _ => "bad-op")
+    else if op = "stripprefix" then
+      (match payload opt, payload kind with
+        | some pre, some p =>
+          (match Path.stripPrefix pre p with
+            | .ok r => "s:" ++ String.ofList r
+            | .error .oob => "unsafe"           -- outside the documented precondition: the harness does not call
+            | .error e => e.name)
+        | _, _ => "bad-op")
+    else if op = "args" ∨ op = "args2" then
+      (match opt.toInt? with
+        | some argc =>
+          let argv := (splitList kind).map String.toList
+          if argc < 0 ∨ argc.toNat ≠ argv.length then "bad-op"
+          else
+            (match (if op = "args" then args argc argv else argsFromSecond argc argv) with
+              | .ok r => s!"{r.length} " ++ (if r.isEmpty then "_" else ",".intercalate (r.map String.ofList))
+              | .error e => e.name)
+        | none => "bad-op")
+    else if op = "flagname" then
+      (match payload kind with
+        | some name =>
+          if opt = "short" ∨ opt = "long" then
+            let n := flagName name (opt = "short")
+            "s:" ++ String.ofList n ++ " " ++
+              (match isFlag n with
+                | .ok none => "none"
+                | .ok (some (sh, nm)) => (if sh then "short" else "long") ++ " s:" ++ String.ofList nm
+                | .error e => e.name)
+          else "bad-op"
+        | none => "bad-op")
+    else if op = "atan2" then
+      (match fclassOf opt, fclassOf kind with
+        | some x, some y => (match vectorAtan2 x y with | none => "none" | some .nan => "some nan" | some _ => "some angle")
+        | _, _ => "bad-op")
+    else if op = "cast" then
+      (match clsOf opt, clsOf kind with
+        | some target, some dyn =>
+          if dyn = .iface ∨ (target = .base) then "bad-op"
+          else (match dynamicCast dyn target with | some _ => "some" | none => "none")
+        | _, _ => "bad-op")
+    else if op = "extract" ∨ op = "extractg" then
+      (match payload kind with
+        | some src =>
+          let codes := src.map Char.toNat
+          if opt = "string" then (match extractString codes with | some w => "some " ++ hexOut w | none => "none")
+          else if opt = "float" ∨ opt = "double" then
+            (match floatAnswer (kind.drop 2).toString with
+              | some (f, d) => if kind.startsWith "x:" then (if opt = "float" then f else d) else "bad-op"
+              | none => "bad-op")
+          else
+            (match extractDest opt with
+              | some d => (match Fcppt.C15.extractFromString d codes with | some v => s!"some {v}" | none => "none")
+              | none => "bad-op")
+        | none => "bad-op")
+    else Fcppt.C06.Drv.handle toks
+  | ["uptrstd", k] =>
+    if k = "null" ∨ k = "object" then (match uniquePtrFromStd (k = "object") with | some _ => "some" | none => "none") ++ " source-null" else "bad-op"
+  | ["weaklock", k] =>
+    -- (owners alive, including the one the harness keeps)
+    let owners : Option Nat := match k with | "live" => some 1 | "expired" => some 0 | "empty" => some 0 | _ => none
+    (match owners with
+      | some n => (match weakLock n with | some c => s!"some {c}" | none => "none 0")
+      | none => "bad-op")
+  | ["getenv", n] =>
+    match payload n with
+    | some name => (match getenv harnessEnv name with | some v => "some s:" ++ String.ofList v | none => "none")
+    | none => "bad-op"
+  | ["system", k] => match waitStatus k with | some st => (match systemResult st with | some v => s!"some {v}" | none => "none") | none => "bad-op"
+  | ["strerror", n] => if n.toInt?.isSome then "ok" else "bad-op"
+  | [op, tt] =>
+    if op = "gmtime" ∨ op = "localtime" then
+      (match tt.toInt? with
+        | some t =>
+          if t < -(2 : Int) ^ 63 ∨ t ≥ (2 : Int) ^ 63 then "bad-op"
+          else
+            (match timeGmtime (gmtimeR t) with
+              | .ok r => s!"ok {r.year} {r.mon} {r.mday} {r.hour} {r.min} {r.sec}"
+              | .error e => e.name)
+        | none => "bad-op")
+    else if op = "typename" then
+      (match payload tt with
+        | some n => (match demangleAnswer (String.ofList n) with | some r => r | none => "bad-op")
+        | none => "bad-op")
+    else if op = "typeinfo" then (if tt ∈ ["int", "string", "d3", "lambda"] then "ok" else "bad-op")
+    else Fcppt.C06.Drv.handle toks
   | _ => Fcppt.C06.Drv.handle toks
 
 def main : IO Unit := Proto.run handle
